@@ -17,7 +17,7 @@ RULE = ("session scripts of 2-3 concurrent connections (handshake, enableBLOB Ne
         "reset, cancellation of the serving task} injected at EVERY step index; for TCP victims also while the peer has stopped reading and a send to it is parked in drain(), and while ANOTHER connection has a backlog of parked and queued sends. Monitors after the fault and after every later step: Router.clients, "
         "Router.blob_routing, ConnectionHandler.connections, writer.closed, writes after close, calls of message_from_device on the "
         "ended handler, and the marker sequence each surviving connection received versus a reference policy model; a reconnecting "
-        "peer must start from default settings. non-trivial = every (script, fault, position, transport mix); distinct = hash of it")
+        "peer must start from default settings. In half of the sessions TTY peers are served through the public TTY server object, whose start() is awaited again when the peer comes back; the router must then hold a client for it. non-trivial = every (script, fault, position, transport mix); distinct = hash of it")
 ASSUMPTIONS = ["the handler-exception fault is raised by a failpoint device (a driver now contains its own errors, C12)",
                "a write error on the peer is followed by a reset of its read side, as on a real socket"]
 REQUIRED_EVENTS = ["sessions_with_the_tty_server_object", "tty_server_objects_started_again", "sessions", "faults_injected", "ended_connections_checked", "survivor_traffic_checks", "reconnects_checked",
